@@ -1,4 +1,5 @@
 (* C11 - Rate/concurrency limits are enforced and every permit is returned. *)
+From Maddy Require Limits.Corr.
 From Maddy Require Import Lib.Base Limits.Model Limits.Lemmas.
 Local Open Scope N_scope.
 
@@ -67,3 +68,13 @@ Proof.
   split; [|vm_compute; reflexivity].
   repeat constructor; simpl; try (right; split; [reflexivity|lia]); lia.
 Qed.
+
+(* The correspondence with the implementation compares the outcomes on the well-formed prefix of an
+   observed history (up to the first release of a permit that is not held, after which nothing is
+   specified): on a history in which every release is by a holder that is the whole history. *)
+Theorem C11_correspondence_covers_well_formed_histories :
+  forall ops res,
+    length ops = length res -> Corr.well_formed ops res [] [] = true ->
+    Corr.wf_prefix ops res [] [] = length ops.
+Proof. intros ops res. exact (Corr.wf_prefix_all ops res [] []). Qed.
+Print Assumptions C11_correspondence_covers_well_formed_histories.
